@@ -17,7 +17,9 @@
 (*                                 interval contains the real one, which   *)
 (*                                 can only make the check more lenient)   *)
 (*   ins k ok / erase k n          sequential insert / erase               *)
-(*   query size iter probe has find lb ub                                  *)
+(*   scan size iter                size() and a full iteration begin..end  *)
+(*   probe q has find lb ub        contains/find/lower_bound/upper_bound   *)
+(*                                 for every probe key q[i] (<<>> = end()) *)
 (*   chunks n cs                   getChunks(n), every chunk iterated      *)
 (*                                                                         *)
 (* Linearisation points are not observable, so the "ret" step is the       *)
@@ -56,19 +58,16 @@ RetStep(t, k, ok) ==
                 /\ pend' = [pend EXCEPT ![t] = Idle, ![u] = [k |-> k, st |-> "done", res |-> TRUE]]
           /\ set' = set \cup {k}
 
-\* a sequence of sequential inserts folded into one event
-RECURSIVE FillOK(_, _, _)
-FillOK(S, ks, rs) == IF ks = <<>> THEN TRUE
-                     ELSE Head(rs) = (Head(ks) \notin S) /\ FillOK(S \cup {Head(ks)}, Tail(ks), Tail(rs))
+\* a sequence of sequential inserts folded into one event: the i-th insert reports TRUE iff its key is neither in
+\* the set before the fill nor among the earlier keys of the fill
+FillOK(S, ks, rs) == \A i \in DOMAIN ks : rs[i] = (ks[i] \notin S /\ \A j \in 1..(i - 1) : ks[j] # ks[i])
 
-QueryOK(e, S) ==
-    /\ e.size = Size(S)
-    /\ IsIterationOf(e.iter, S)
-    /\ \A i \in DOMAIN e.probe :
-          LET q == e.probe[i] IN /\ e.has[i] = Contains(S, q)
-                                 /\ e.find[i] = Find(S, q)
-                                 /\ e.lb[i] = LowerBound(S, q)
-                                 /\ e.ub[i] = UpperBound(S, q)
+ProbeOK(e, S) ==
+    \A i \in DOMAIN e.q :
+          LET q == e.q[i] IN /\ e.has[i] = Contains(S, q)
+                             /\ e.find[i] = Find(S, q)
+                             /\ e.lb[i] = LowerBound(S, q)
+                             /\ e.ub[i] = UpperBound(S, q)
 
 TNext == /\ l <= Len(TraceData)
          /\ l' = l + 1
@@ -79,7 +78,8 @@ TNext == /\ l <= Len(TraceData)
               [] Ev.e = "ret"    -> RetStep(Ev.t, Ev.k, Ev.ok)
               [] Ev.e = "ins"    -> Insert(Ev.k, Ev.ok)
               [] Ev.e = "erase"  -> Erase(Ev.k, Ev.n)
-              [] Ev.e = "query"  -> Quiet /\ QueryOK(Ev, set) /\ UNCHANGED avars
+              [] Ev.e = "scan"   -> Quiet /\ Ev.size = Size(set) /\ IsIterationOf(Ev.iter, set) /\ UNCHANGED avars
+              [] Ev.e = "probe"  -> Quiet /\ ProbeOK(Ev, set) /\ UNCHANGED avars
               [] Ev.e = "chunks" -> Quiet /\ IsChunkingOf(Ev.cs, set) /\ UNCHANGED avars
 TSpec == TInit /\ [][TNext]_tvars
 Accepted == TLCGet("stats").diameter - 1 = Len(TraceData)
